@@ -247,6 +247,38 @@ def gen_obj_prog(rng, i):
         if not ref_run(t)[1]: return render(t)
     return '(c (t 100) (102) (s 1))'
 
+# ---- extension round: signals as exceptions, the uncaught-exception report -------------------------------------------
+NSIG = 6
+def gen_sig_prog(rng):
+    """a random program tree in which some throws are `raise(signal)` with exception_signals() installed — each signal at
+    most once per program (a second raise of one signal in a thread is finding KF-C07-signal-once: never generated)"""
+    p = gen_prog(rng, rng.randrange(1, 6), rng.randrange(2, 30))
+    sigs = rng.sample(range(NSIG), rng.randrange(1, NSIG + 1))
+    parts = re.split(r'(\(t \d+\))', p)
+    idx = [i for i, x in enumerate(parts) if x.startswith('(t ')]
+    rng.shuffle(idx)
+    for i, sg in zip(idx, sigs): parts[i] = f'(k {sg})'
+    p = ''.join(parts)
+    if '(k ' not in p:
+        sg = sigs[0]; own = 200  # (filters cannot name the signal objects in P lines: catch-all or a Type that does not list it)
+        p = f'(c (q (s 1) {rng.choice(["(k %d)", "(f (k %d))", "(d 7 (k %d))"]) % sg}) ({rng.choice(["", "0", "1 2"])}) {rng.choice(["(s 2)", "(q (s 2) (r))", p])})'
+    return p
+
+def gen_sig_hist(rng):
+    """a history of try { raise(sig) } catch blocks in one thread, pairwise different signals; mode 0 catch-all, 1 the signal's
+    own exception object, 2 a filter that does not list it (uncaught)"""
+    sigs = rng.sample(range(NSIG), rng.randrange(1, NSIG + 1))
+    return f"S {rng.choice([0, 0, 1, 1, 1, 2])} {' '.join(map(str, sigs))}"
+
+DIAG_LENS = [0, 1, 2, 7, 31, 32, 33, 63, 64, 65, 127, 128, 129, 255, 256, 257, 511, 512, 513, 1023, 1024, 1025, 4095, 4096, 4097, 20000, 50000]
+def gen_diag(rng):
+    """the report of an uncaught exception: every object class (Type / String / Int / signal exception), the three message
+    shapes, %s arguments of boundary lengths (the message buffer is a String that must grow: nothing is cut off)"""
+    k = rng.choice(list(range(NK)) + STR_KINDS + INT_KINDS + [200 + j for j in range(NSIG)])
+    shape = rng.randrange(3)
+    n = rng.choice(DIAG_LENS) if rng.random() < 0.7 else rng.randrange(0, 3000)
+    return f'E {k} {shape} {n if shape == 2 else 0}'
+
 class C07(Spec):
     id = 'C07'; engine = 'exn'; harness = 'h_exn'; driver = 'drv_exn'
     generators = ('Exn',)
@@ -267,10 +299,15 @@ class C07(Spec):
                   'refuted on its witness (C07_foreach_walk_refuted / _hangs). '
                   'The parameters that a source change can flip (does exception_catch consume; EXCEPTION_MAX_DEPTH; the macro texts; statement '
                   'order in exception_throw; the filter loop — by index or foreach; Tuple_Get/Tuple_Len) are regenerated from /repo on every run and the theorems re-checked '
-                  'against them; the machine model is tied to the real macros by running thousands of program trees on both.')
-    level_note = ('Trusted: Lean kernel; axioms propext/Quot.sound/Classical.choice at most; the regex translator for Exception.c/Tuple.c/Cello.h; the '
-                  'harness/driver comparison (testing); setjmp/longjmp and process exit status are modelled. Not covered: signals-to-exceptions, stack '
-                  'traces, other threads (C13), exception objects on a dead stack frame, exception objects created inside the try body, exceptions raised by '
+                  'against them; the machine model is tied to the real macros by running thousands of program trees on both. '
+                  'Extension round: signals as exceptions — Exception_Signal\'s switch and exception_signals\' registrations are extracted as tables (C07_signal_table_current_source), '
+                  'a delivered signal is a throw of the table\'s object inside program trees, and histories of try { raise(sig) } catch blocks run on the machine with the thread\'s signal mask '
+                  '(runS): C07_signals_delivered_once_each (pairwise different signals: reference traces), C07_signal_second_delivery_refuted (KF-C07-signal-once), C07_signal_unblocking_repair; '
+                  'Exception_Error is extracted as a statement list with segmented formats: C07_uncaught_report_current_source (for every object and message exactly the report lines, exit status 1, backtrace last); '
+                  'C07_record_accessors_as_modelled (Exception_Len / _Running / _Current / _Buffer, instance registrations, the jump-or-report tests), C07_running_false_at_statement_boundaries.')
+    level_note = ('Signals: each signal at most once per thread is in contract (a second raise is finding KF-C07-signal-once, modelled by the mask of runS); only raise() is exercised, not faults delivered by the kernel. The message TEXT (print_to_with) stays C14\'s matter: the report theorem quantifies over the message string. Trusted: Lean kernel; axioms propext/Quot.sound/Classical.choice at most; the regex translator for Exception.c/Tuple.c/Cello.h; the '
+                  'harness/driver comparison (testing); setjmp/longjmp and process exit status are modelled. Not covered: stack '
+                  'traces (Exception_Backtrace; the harness builds with CELLO_NSTRACE), Exception_Assign / Exception_Show / Exception_Del of the record, other threads (C13), exception objects on a dead stack frame, exception objects created inside the try body, exceptions raised by '
                   'library functions inside a try body (same code path, other frames), objects of types other than Type / String / Int. The message of a '
                   'throw is checked by the direct oracle in the diagnostic of an uncaught exception only (no accessor exists: KF-C07-accessors-undefined); '
                   'it is not part of the Lean state.')
@@ -293,7 +330,10 @@ class C07(Spec):
             'a thrown String that never meet are kept). Message formats: three shapes (plain, %$ + literal %, 320 characters), checked in the '
             'diagnostic of every uncaught exception together with the object it names. Each runs on the real macros in a forked child under alarm(); trace, end state and '
             'depth are compared with the Lean machine and with an independent reference interpreter in C. non-trivial = the trace contains at least '
-            'one handler event or the program ends fatal/abort/hang; distinct = distinct program text.')
+            'one handler event or the program ends fatal/abort/hang; distinct = distinct program text. (j) extension round: program trees in which some throws are raise(signal) with '
+            'exception_signals() installed (each of the six signals at most once per program), histories `S` of try { raise } catch blocks in one thread over pairwise different signals with a catch-all / '
+            'the signal\'s own exception object / a filter that does not list it, and reports `E` of uncaught exceptions: every object class (Type, String, Int, signal exception) x three message shapes x '
+            '%s arguments of 0 … 50000 characters (boundaries around powers of two), compared byte for byte with the report the model renders from the extracted Exception_Error and with the oracle\'s own text.')
     trusted_base = ('translate/gen.py generator Exn (regex over src/Exception.c, src/Tuple.c Tuple_Get / Tuple_Len / Tuple_Iter_Next and the try / catch_in / throw macros)',
                     'harness/h_exn.c + lean/Driver/Exn.lean (correspondence is testing)',
                     'setjmp/longjmp, fork/exit status/alarm (libc) are modelled, not verified')
@@ -317,6 +357,8 @@ class C07(Spec):
                    'theorem C07_exception_accessors_undefined over translator flags): the thrown message is observable only in the diagnostic of an uncaught exception. Outside inDomain (corpus/exn_domain.ops, modelled, not judged '
                    'by the direct oracle): throw(NULL) is consumed by a catch-all without running the handler, eq(arg, NULL) raises ValueError inside exception_catch; a message with too few '
                    'arguments makes exception_throw raise FormatError in place of the named object (mechanism of KF-C08-terminal-message)',
+                   'signals: a signal is turned into an exception once per thread — the first raise of each of the six signals of exception_signals() is in contract, a second raise of the same signal is finding '
+                   'KF-C07-signal-once (witness corpus/kf_c07_signal_once.ops, theorem C07_signal_second_delivery_refuted; generated programs and histories never repeat a signal; P lines that do are bad-op)',
                    'catch filters are arbitrary lists of such objects (no distinctness hypothesis since fix a0ef2da; generated filters repeat objects; '
                    'regression inputs corpus/exn_fixed_filter_dup.ops; the old behaviour is the model runOld, theorems C07_foreach_walk_refuted / C07_foreach_walk_hangs)')
     def cases(self, rng, tier, boost=1):
@@ -384,6 +426,15 @@ class C07(Spec):
             ob.append('P ' + gen_obj_prog(rng, i))
         for i in range(0, len(ob), 500):
             cs.append(Case(f'objects{i//500}', ob[i:i+500]))
+        # (j) extension round: signals as exceptions (program leaves `(k N)`, histories `S`), the uncaught-exception report (`E`)
+        sg = ['P ' + gen_sig_prog(rng) for _ in range((200 if quick else 4000) * boost)] + [gen_sig_hist(rng) for _ in range((60 if quick else 1200) * boost)]
+        rng.shuffle(sg)
+        for i in range(0, len(sg), 500):
+            cs.append(Case(f'signals{i//500}', sg[i:i+500]))
+        dg = [f'E {k} {sh} {n}' for k in (0, 101, 105, 203) for sh in (0, 1, 2) for n in ((0,) if sh != 2 else (0, 1, 255, 256, 1024, 4097))]
+        dg += [gen_diag(rng) for _ in range((120 if quick else 2500) * boost)]
+        for i in range(0, len(dg), 300):
+            cs.append(Case(f'report{i//300}', dg[i:i+300]))
         return cs
     def compare(self, case, c_out, m_out):
         """correspondence = the harness's and the driver's O lines agree AND, wherever the hypotheses of
@@ -402,13 +453,19 @@ class C07(Spec):
     def stats(self, case, c_out, m_out, acc):
         for l in core.lines_with('O ', c_out):
             acc['programs'] = acc.get('programs', 0) + 1
+            if l.startswith('O diag'): acc['reports'] = acc.get('reports', 0) + 1
             if 'h' in l.split('end=')[0]: acc['with_handler'] = acc.get('with_handler', 0) + 1
             e = l.split('end=')[1].split()[0] if 'end=' in l else '?'
             acc['end_' + e] = acc.get('end_' + e, 0) + 1
         for l in case.lines:
+            if l.startswith('S '): acc['signal_histories'] = acc.get('signal_histories', 0) + 1
+            if l.startswith('E '):
+                f = l.split(); acc['report_shape' + f[2] + ('_signal' if int(f[1]) >= 200 else '')] = acc.get('report_shape' + f[2] + ('_signal' if int(f[1]) >= 200 else ''), 0) + 1
+                if int(f[3]) > 1024: acc['report_long_message'] = acc.get('report_long_message', 0) + 1
             if l.startswith('P '):
                 if '(r)' in l: acc['with_rethrow'] = acc.get('with_rethrow', 0) + 1
                 if '(d ' in l: acc['with_deep_call'] = acc.get('with_deep_call', 0) + 1
+                if '(k ' in l: acc['with_signal_leaf'] = acc.get('with_signal_leaf', 0) + 1
                 if '(n)' in l or '(m ' in l: acc['out_of_domain'] = acc.get('out_of_domain', 0) + 1
                 if re.search(r'[ (]10[0-6][ )]', l): acc['with_non_type_objects'] = acc.get('with_non_type_objects', 0) + 1
         for l in m_out.split('\n'):
